@@ -75,7 +75,8 @@ struct Exec {
   std::unordered_map<const void*, int> owner;          // mutex -> tid
   std::unordered_map<const void*, long> version;       // atomic -> write count
   long global_writes = 0;
-  std::map<const void*, std::vector<std::pair<int, bool>>> cvwait;  // cv -> (ticket, notified)
+  std::map<const void*, std::vector<std::pair<int, bool>>> cvwait;  // cv -> (ticket, notified by notify_all)
+  std::map<const void*, std::vector<std::set<int>>> cvtokens;       // cv -> notify_one tokens: tickets eligible to take it
   int next_ticket = 0;
   std::unordered_map<const void*, int> ids;
   std::string log;       // outcome (harness observations)
@@ -133,6 +134,9 @@ bool is_enabled(Th* t) {
       auto& w = g->cvwait[t->cv];
       bool notified = false;
       for (auto& e : w) if (e.first == t->cv_ticket) notified = e.second;
+      // notify_one wakes ANY ONE of the threads waiting at that moment: every eligible waiter is enabled and the
+      // one that gets scheduled first consumes the token (the nondeterminism becomes a scheduling choice)
+      for (auto& tok : g->cvtokens[t->cv]) if (tok.count(t->cv_ticket)) notified = true;
       return notified && g->owner.find(t->mtx) == g->owner.end();
     }
   }
@@ -347,15 +351,25 @@ void cv_wait_block(const void* cv, int ticket, const void* mtx) {
   schedule(me);
   me->bk = B_NONE;
   auto& w = g->cvwait[cv];
-  for (size_t i = 0; i < w.size(); i++) if (w[i].first == ticket) { w.erase(w.begin() + i); break; }
+  bool by_all = false;
+  for (size_t i = 0; i < w.size(); i++) if (w[i].first == ticket) { by_all = w[i].second; w.erase(w.begin() + i); break; }
+  auto& toks = g->cvtokens[cv];
+  if (!by_all) {
+    for (size_t i = 0; i < toks.size(); i++) if (toks[i].count(ticket)) { toks.erase(toks.begin() + i); break; }
+  }
+  for (size_t i = toks.size(); i-- > 0;) { toks[i].erase(ticket); if (toks[i].empty()) toks.erase(toks.begin() + i); }
   g->owner[mtx] = me->id;
 }
 
 void cv_notify(const void* cv, bool all) {
   auto& w = g->cvwait[cv];
-  for (auto& e : w) {
-    if (!e.second) { e.second = true; if (!all) break; }
+  if (all) {
+    for (auto& e : w) e.second = true;
+    return;
   }
+  std::set<int> eligible;
+  for (auto& e : w) if (!e.second) eligible.insert(e.first);
+  if (!eligible.empty()) g->cvtokens[cv].push_back(eligible);
 }
 
 int spawn(std::function<void()> fn) {
